@@ -20,6 +20,9 @@ UNITS = ["int", "1/cm", "eV", "meV", "THz", "1/fs", "Ha"]
 ENERGY_KEYS = ("reorg", "freq", "gamma")
 RT = 1e-11
 AXGROUP = {0: 0, 1: 0, 2: 2, 3: 3}
+PALETTE = [{"reorg": 30.0, "cortime": 100.0, "freq": 300.0, "gamma": 20.0, "matsubara": 20},
+           {"reorg": 12.5, "cortime": 60.0, "freq": 150.0, "gamma": 8.0, "matsubara": 5}]
+QUERIES = ["ft_window", "ft_window", "ft", "ftcf", "sd_or_cf", "even", "odd", "at", "measure", "getters", "copy_drop", "ift_of_ft"]
 
 
 class Entry:
@@ -37,7 +40,8 @@ class World:
     required_probes = ["mixed_types_sum", "three_component_grouping_left", "three_component_grouping_right", "inplace_add",
                        "self_add", "add_inside_units_context", "constructed_under_units", "refused_temperature",
                        "refused_axis", "value_defined_right_operand", "sum_of_sums", "spectral_density_sum",
-                       "even_odd_checked", "measure_checked", "copy_of_composite", "public_add_to_data", "template_dict_reused"]
+                       "even_odd_checked", "measure_checked", "copy_of_composite", "public_add_to_data", "template_dict_reused",
+                       "windowed_transform_query", "query_inside_units_context", "same_numbers_under_different_units"]
     required_faults = ["different_temperature", "different_axis"]
     components = {
         "real": ["CorrelationFunction / SpectralDensity constructors, __add__, __iadd__, add_to_data(2), copy",
@@ -65,11 +69,24 @@ class World:
         sdrun = rng.random() < 0.3
         for _ in range(npre):
             ops.append(self._gen_new(rng, kf, sdrun))
-        kinds = ["new", "add", "add", "add", "iadd", "selfadd", "copy", "valdef", "measure", "measure", "evenodd", "addctx", "pubadd"]
+        kinds = ["new", "add", "add", "add", "iadd", "selfadd", "copy", "valdef", "measure", "measure", "evenodd", "addctx", "pubadd", "query"]
+        # swarm member: the same NUMBERS handed over under different units (30 means 30 1/cm here and 30 THz there)
+        palette = rng.random() < 0.3
+        if palette:
+            for o in ops:
+                if rng.random() < 0.7:
+                    o["palette"] = rng.randrange(2)
+                    o["T"] = 0
         for _ in range(n):
             k = rng.choice(kinds)
             if k == "new":
-                ops.append(self._gen_new(rng, kf, sdrun))
+                o = self._gen_new(rng, kf, sdrun)
+                if palette and rng.random() < 0.7:
+                    o["palette"] = rng.randrange(2)
+                    o["T"] = 0
+                ops.append(o)
+            elif k == "query":
+                ops.append({"op": "query", "i": rng.randrange(16), "q": rng.randrange(16), "unit": rng.randrange(len(UNITS))})
             elif k in ("add", "iadd", "pubadd"):
                 ops.append({"op": k, "i": rng.randrange(16), "j": rng.randrange(16)})
             elif k == "addctx":
@@ -108,7 +125,7 @@ class World:
             yield dict(program, naxis=200)
         ops = program["ops"]
         for i, op in enumerate(ops):
-            for key in ("unit", "axis", "T", "i", "j"):
+            for key in ("unit", "axis", "T", "i", "j", "q"):
                 if op.get(key):
                     new = list(ops)
                     new[i] = dict(op, **{key: 0})
@@ -134,6 +151,7 @@ class Runner:
         self.pool = []
         self.fresh = {}
         self.good_adds = 0
+        self.same_numbers = []
         self.templates = {}      # the caller's own parameter dictionaries, re-used (and edited) between constructions
 
     # ---------------------------------------------------------------- model
@@ -227,9 +245,18 @@ class Runner:
             raw["gamma"] = op["gamma"]
         # the numbers are meant in 1/cm; express them in the construction unit with the library's own conversion
         given = dict(raw)
-        for k in ENERGY_KEYS:
-            if k in given:
-                given[k] = float(qr.convert(raw[k], "1/cm", to=u))
+        if op.get("palette") is not None:
+            # ... or the very same numbers are meant in whatever unit is active (a parameter set from a table)
+            given.update(PALETTE[op["palette"] % len(PALETTE)])
+            given = {k: v for k, v in given.items() if k in raw}
+            sig = (kind, ftype, op["palette"] % len(PALETTE), T, AXGROUP[op["axis"]])
+            if any(s == sig and uu != u for s, uu in self.same_numbers):
+                self.ctx.probe("same_numbers_under_different_units")
+            self.same_numbers.append((sig, u))
+        else:
+            for k in ENERGY_KEYS:
+                if k in given:
+                    given[k] = float(qr.convert(raw[k], "1/cm", to=u))
         cls = qr.CorrelationFunction if kind == "cf" else qr.SpectralDensity
         ax = op["axis"]
         if op.get("template"):
@@ -395,6 +422,68 @@ class Runner:
             self.ctx.probe("copy_of_composite")
         self.ctx.ev(i, "copy", a, n)
         self.ctx.cov("copy", A.kind, min(len(A.comps), 3))
+
+    def op_query(self, i, op):
+        """Read-only requests (transforms with and without a window, conversions, interpolation, getters) on one entry,
+        possibly inside a units context: whatever they return, every entry of the pool must still be the sum of its components."""
+        a = self.pick(op["i"])
+        if a is None:
+            return
+        qr = self.qr
+        A = self.pool[a]
+        q = QUERIES[op["q"] % len(QUERIES)]
+        u = UNITS[op["unit"] % len(UNITS)]
+        f = A.real
+        ax = self.axes[A.axis]
+
+        def call():
+            if q == "ft_window":
+                if A.kind != "cf":
+                    return f.get_reorganization_energy()
+                win = qr.DFunction(ax, numpy.exp(-(numpy.array(ax.data) / (0.3 * ax.max + 1.0)) ** 2))
+                self.ctx.probe("windowed_transform_query")
+                return f.get_Fourier_transform(window=win)
+            if q == "ft":
+                return f.get_Fourier_transform() if A.kind == "cf" else f.get_inverse_Fourier_transform()
+            if q == "ift_of_ft":
+                return f.get_Fourier_transform().get_inverse_Fourier_transform() if A.kind == "cf" else f.get_reorganization_energy()
+            if q == "ftcf":
+                return f.get_FTCorrelationFunction() if A.kind == "cf" else f.get_FTCorrelationFunction(temperature=300)
+            if q == "sd_or_cf":
+                return f.get_SpectralDensity() if A.kind == "cf" else f.get_CorrelationFunction(temperature=300)
+            if q == "even":
+                return f.get_EvenFTCorrelationFunction() if A.kind == "cf" else f.get_temperature()
+            if q == "odd":
+                return f.get_OddFTCorrelationFunction() if A.kind == "cf" else f.get_temperature()
+            if q == "at":
+                x = float(f.axis.data[min(3, f.axis.length - 1)])
+                return (f.at(x), f.at(x + 0.25 * f.axis.step), f.at(x, approx="spline"))
+            if q == "measure":
+                return f.measure_reorganization_energy()
+            if q == "getters":
+                out = []
+                for nm in ("get_reorganization_energy", "get_temperature", "is_analytical", "get_correlation_time"):
+                    try:
+                        out.append(getattr(f, nm)())
+                    except Exception:
+                        out.append(None)
+                return out
+            if q == "copy_drop":
+                c = f.copy()
+                c.data[:] = 0.0          # the caller does what it likes with its copy
+                return None
+            raise HarnessError("unknown query " + q)
+        try:
+            with qr.energy_units(u):
+                call()
+            raised = None
+        except HarnessError:
+            raise
+        except Exception as e:
+            raised = type(e).__name__
+        self.ctx.probe("query_inside_units_context") if u not in ("int", "1/fs") else None
+        self.ctx.ev(i, "query", a, q, u, raised)
+        self.ctx.cov("query", A.kind, q, raised, min(len(A.comps), 3))
 
     def op_valdef(self, i, op):
         a = self.pick(op["i"], lambda e: e.kind == "cf")
